@@ -63,6 +63,10 @@ add("C09", E2,
     "Runtime monitor: the full source-kind x receiver-role x cluster x confederation matrix (360 cells incl. echo variants) crossed with a covering set + random attribute vectors (every AS_PATH segment type, full 255-AS segment, next-hop kinds, MED, LOCAL_PREF, ORIGINATOR_ID, CLUSTER_LIST, AIGP, communities, opaque attributes, LLGR-stale sources, policy next-hop/MED actions) through both branches of the real process_nlri_change with a recording sink, judged by an expected_export function written from the statement; inbound is_as_loop / rx_update loop checks with the RIB read back; role and cluster-id derivation through accept_connection on TOML neighbour configs.",
     "Trusted: expected_export (Suppress | Send{attrs', nexthop'}); where the statement is silent (RS-client transparency, confed MED/next hop, policy MED on eBGP, LLGR to non-LLGR peers) nothing is judged. Debug profile only (E2).",
     "runtime monitoring: reference-function oracle over an enumerated configuration matrix x generated attribute vectors")
+add("C10", E2,
+    "Runtime monitor: one op language (connect full / dying before or after OPEN, announce plain / NO_LLGR / LLGR_STALE, withdraw, EOR per family, every kind of session drop, restart-timer and per-family LLGR-timer expiry as history events through the daemon's own fire-now channels, forced down), two executors: L2 = the real accept_connection + PeerSession::run over loopback TCP with the harness as remote speaker; L1 = the real apply_disconnect / process_effects / negotiate_gr / negotiate_llgr / timer tasks on new_for_test sessions (exhaustive to depth 5 / 6 over a 16-letter alphabet x 6 GR/LLGR configurations + random), calibrated against L2 on every shard; one oracle with invariants I1-I7 (stale routes only while a timer or EOR is pending; kept vs dropped families; non-eligible drops never enter helper mode; purge at expiry / EOR; re-announced paths survive; failed reconnects leave the timer armed; NO_LLGR dropped at LLGR start). Routes carry the session epoch in their MED.",
+    "Trusted: the I1-I7 oracle written from the statement; L1's replica of the session_loop tail is only used when its observations equal L2's on the calibration histories (else inconclusive). Cease with N-bit other than hard reset and hold-timer expiry accept both outcomes.",
+    "runtime monitoring: invariant checking at quiescent points of generated fault/timer histories (end-to-end sessions + exhaustive bounded enumeration)")
 add("C11", E2,
     "Runtime monitor: a real RestartingDeferral in Global.selection_deferral coupled to a real TableManager through the real process_restarting_outputs / gr_selection_deferral_timer_expired (and through PeerSession::process_effects); event sequences over 3 peers x 3 families (PeerEstablished with any family subset, EOR, PeerWithdrawn, TimerExpired) enumerated exhaustively to depth 4 (quick; up to peer renaming) / 5 (thorough) plus random histories to length 40, interleaved with insert_route into deferred and non-deferred families and observed on a registered peer channel; judged by a pending-map model written from the statement: held, release-iff (not early, not late), exactly-once per prefix at release, non-GR peers never block, terminates.",
     "Trusted: the pending-map model; steps the statement leaves undefined are counted unjudged. Timer expiry is an event of the history (the glue function is called directly), not wall-clock.",
